@@ -7,14 +7,25 @@ package main
 // input: callback (depth of the op onNegotiationNeeded enqueues, -1 = none),
 // client programs ([0,d] Enqueue(op of depth d), [1,0] Done, [2,0]
 // GracefulClose, [3,0] set the negotiation-needed flag) and a schedule over
-// thread numbers (clients 0..n-1, n = the worker goroutine). The executed
-// schedule (given schedule, then round-robin until nothing can move) is what
-// the model replays.
+// thread numbers: clients 0..n-1, n+k = a start() goroutine. Every start()
+// goroutine is a participant of its own, created when the goroutine reaches
+// its first yield point (keyed by goroutine id), so any number of goroutines
+// alive at once is seen as such. With Abs the numbers n+k name the k-th
+// goroutine in order of creation (what the model replays); without, n+k is
+// the k-th goroutine alive at that moment. The executed schedule (given
+// schedule, then lowest-first until nothing can move) is always absolute.
+//
+// Queued functions park at a gate (ops.op.gate, a yield point of the harness)
+// right after they are entered and the harness lets a worker that has popped
+// one run into it at once: an op is "running" from then until its step is
+// scheduled, so two goroutines draining the queue overlap observably.
 
 import (
+	"bytes"
 	"encoding/json"
 	"fmt"
 	"runtime"
+	"strconv"
 	"strings"
 	"sync"
 	"time"
@@ -27,7 +38,8 @@ type c05In struct {
 	Cb    int      `json:"cb"`
 	Progs [][2]int `json:"progs"`
 	Sched []int    `json:"sched"`
-	Drain bool     `json:"drain"` // continue round-robin after Sched until quiescent
+	Drain bool     `json:"drain"`         // continue lowest-first after Sched until quiescent
+	Abs   bool     `json:"abs,omitempty"` // Sched names goroutines by creation number
 }
 
 type c05Op struct {
@@ -36,13 +48,15 @@ type c05Op struct {
 }
 
 type c05Step struct {
-	res    int   // 0 disabled, 1 ran, 2 blocked
-	status []int // clients..., worker
-	qlen   int
-	busy   bool
-	closed bool
-	flag   bool
-	ran    []int
+	res      int   // 0 disabled, 1 ran, 2 blocked
+	status   []int // clients
+	wlive    []int // 8*k + status for every start() goroutine k that exists
+	nworkers int   // start() goroutines seen so far
+	qlen     int
+	busy     bool
+	closed   bool
+	flag     bool
+	ran      []int
 }
 
 type c05Trace struct {
@@ -53,6 +67,7 @@ type c05Trace struct {
 	waiterOf  map[int]int
 	verdict   Verdict
 	quiescent bool
+	maxLive   int
 }
 
 func c05StatusCode(st string, worker bool) int {
@@ -62,7 +77,7 @@ func c05StatusCode(st string, worker bool) int {
 			return 0
 		case "parked:ops.worker.start":
 			return 1
-		case "parked:ops.worker.popped":
+		case "parked:ops.worker.popped", "parked:ops.op.gate":
 			return 2
 		case "parked:ops.worker.ran":
 			return 3
@@ -90,30 +105,109 @@ func c05StatusCode(st string, worker bool) int {
 	return 7
 }
 
+// c05StartGoroutines: ids of the goroutines that are inside operations.start
+// (from the runtime's own listing; a goroutine just created by `go o.start()`
+// is listed as soon as the go statement has executed).
+func c05StartGoroutines() map[uint64]bool {
+	buf := make([]byte, 1<<16)
+	for {
+		k := runtime.Stack(buf, true)
+		if k < len(buf) {
+			buf = buf[:k]
+			break
+		}
+		buf = make([]byte, 2*len(buf))
+	}
+	out := map[uint64]bool{}
+	for _, blk := range bytes.Split(buf, []byte("\n\n")) {
+		if !bytes.HasPrefix(blk, []byte("goroutine ")) {
+			continue
+		}
+		// inside start(), or created by a method of operations (the only go
+		// statements there are `go o.start()`; a goroutine that has not run
+		// yet shows the compiler's wrapper, not start, as its only frame)
+		frames, creator := blk, []byte(nil)
+		if i := bytes.Index(blk, []byte("\ncreated by ")); i >= 0 {
+			frames, creator = blk[:i], blk[i:]
+		}
+		if !bytes.Contains(frames, []byte("webrtc/v4.(*operations).start")) &&
+			!bytes.Contains(creator, []byte("webrtc/v4.(*operations).")) {
+			continue
+		}
+		rest := blk[len("goroutine "):]
+		sp := bytes.IndexByte(rest, ' ')
+		if sp < 0 {
+			continue
+		}
+		if id, err := strconv.ParseUint(string(rest[:sp]), 10, 64); err == nil {
+			out[id] = true
+		}
+	}
+	return out
+}
+
+// failure classes: 2 = the property's own words (stops the schedule),
+// 1 = the mechanism the property rests on (one start() goroutine at a time),
+// 0 = bookkeeping that disagrees with the goroutines that exist. The verdict
+// is the first failure of the highest class seen in the schedule.
+const (
+	c05Soft = iota
+	c05Mech
+	c05Prop
+)
+
 // c05Execute runs one schedule on a fresh operations value.
 func c05Execute(in c05In) *c05Trace {
 	n := len(in.Progs)
 	tr := &c05Trace{waiterOf: map[int]int{}}
 	var ops *webrtc.VerifOperations
+	stale := c05StartGoroutines() // left behind by an earlier (failed) run: not ours
+	g0 := runtime.NumGoroutine()  // before any participant has a goroutine
 	s := NewSched().Only("ops.")
 	s.Grace = 0
 	defer s.Close()
+
+	prio := -1
+	fail := func(class int, sig, what string) {
+		if class > prio {
+			prio = class
+			tr.verdict = Fail(sig, what)
+		}
+	}
+
 	// before the next run installs its handler, every goroutine of this run
 	// must have ended (or be blocked for good): let them run free and wait
 	defer func() {
 		s.freeAll()
-		deadline := time.Now().Add(robustDeadline)
+		wait := robustDeadline
+		if prio >= 0 {
+			wait = 2 * time.Second
+		}
+		deadline := time.Now().Add(wait)
 		for {
-			if _, busy, _ := ops.Snapshot(); !busy || time.Now().After(deadline) {
+			left := 0
+			for g := range c05StartGoroutines() {
+				if !stale[g] {
+					left++
+				}
+			}
+			if left == 0 || time.Now().After(deadline) {
 				break
 			}
 			runtime.Gosched()
 		}
-		waitClientsGone(s, n)
+		if prio < 0 {
+			waitClientsGone(s, n)
+		}
+		// ... and their goroutines have really ended: the next run counts
+		for time.Now().Before(deadline) && runtime.NumGoroutine() > g0 {
+			runtime.Gosched()
+		}
 	}()
 
 	var mu sync.Mutex // guards the logs below (only one thread runs at a time; the lock is for the race detector)
 	var ranLog []int
+	var entered []*c05Op // ops whose function has been entered, in order
 	running, maxRunning := 0, 0
 	var pending *c05Op // the op handed to Enqueue during the current step
 
@@ -129,6 +223,11 @@ func c05Execute(in c05In) *c05Trace {
 			if running > maxRunning {
 				maxRunning = running
 			}
+			entered = append(entered, op)
+			mu.Unlock()
+			// the op is running; the rest of it is one step of the schedule
+			verifhook.Point("ops.op.gate")
+			mu.Lock()
 			ranLog = append(ranLog, op.id)
 			mu.Unlock()
 			if op.depth > 0 {
@@ -145,30 +244,17 @@ func c05Execute(in c05In) *c05Trace {
 	}
 	ops = webrtc.VerifNewOperations(cb)
 
-	// two start() goroutines alive at once would be attributed to one
-	// participant by the scheduler; detect it from the goroutine ids
-	twoWorkers := false
-	var curW uint64
-	retired := map[uint64]bool{}
-	lastPt := map[uint64]string{}
+	// a goroutine at an ops.worker.* point that no participant owns yet is a
+	// new start() goroutine: it becomes the next participant
 	verifhook.Install(func(name string) {
 		if strings.HasPrefix(name, "ops.worker.") {
 			g := goid()
-			mu.Lock()
-			if g != curW {
-				if curW != 0 && lastPt[curW] != "ops.worker.deferred" && lastPt[curW] != "ops.worker.exit" {
-					twoWorkers = true
-				}
-				if curW != 0 {
-					retired[curW] = true
-				}
-				curW = g
+			s.mu.Lock()
+			if _, ok := s.byGoid[g]; !ok && !s.free {
+				s.parts = append(s.parts, &participant{name: fmt.Sprintf("w%d", len(s.parts)-n), state: psRunning})
+				s.byGoid[g] = len(s.parts) - 1
 			}
-			if retired[g] {
-				twoWorkers = true
-			}
-			lastPt[g] = name
-			mu.Unlock()
+			s.mu.Unlock()
 		}
 		s.point(name)
 	})
@@ -188,23 +274,84 @@ func c05Execute(in c05In) *c05Trace {
 		}
 		s.Add(fmt.Sprintf("c%d", i), fn)
 	}
-	wtid := s.AddSpawned("worker", "ops.worker.")
 
-	fail := func(sig, what string) {
-		if tr.verdict.Sig == "" {
-			tr.verdict = Fail(sig, what)
+	nparts := func() int {
+		s.mu.Lock()
+		defer s.mu.Unlock()
+		return len(s.parts)
+	}
+
+	// settle: every start() goroutine that exists is a participant that is
+	// parked (or has announced its end), and every worker participant that was
+	// released has parked or its goroutine is gone. Independent of busyCh.
+	// Fast path: the number of goroutines of the process is what the
+	// participants account for (a goroutine nobody owns yet, or one that has
+	// not quite ended, makes it larger). Otherwise the runtime's listing of
+	// goroutines decides.
+	settle := func() {
+		deadline := time.Now().Add(robustDeadline)
+		for k := 1; ; k++ {
+			s.mu.Lock()
+			expected, moving := g0, false
+			for t, p := range s.parts {
+				if p.state == psRunning || p.state == psParked {
+					expected++
+				}
+				if t >= n && p.state == psRunning {
+					moving = true
+				}
+			}
+			s.mu.Unlock()
+			if !moving && runtime.NumGoroutine() == expected {
+				return
+			}
+			if k%24 == 0 {
+				alive := c05StartGoroutines()
+				ok := true
+				s.mu.Lock()
+				for g := range alive {
+					if stale[g] {
+						continue
+					}
+					t, reg := s.byGoid[g]
+					if !reg || s.parts[t].state == psRunning {
+						ok = false
+					}
+				}
+				for g, t := range s.byGoid {
+					if t >= n && s.parts[t].state == psRunning {
+						if alive[g] {
+							ok = false
+						} else {
+							s.parts[t].state = psFinished // returned without a point (go o.start(); return)
+						}
+					}
+				}
+				s.mu.Unlock()
+				if ok {
+					return
+				}
+				if time.Now().After(deadline) {
+					fail(c05Prop, "worker-goroutine-neither-parked-nor-gone", "a start() goroutine did not reach a yield point or its end")
+					return
+				}
+			}
+			runtime.Gosched()
 		}
 	}
+
 	released := map[int]bool{} // clients released into a blocking wait
 	nextID := 0
 	closedSeen := false
-	closerDone := -1 // ran length when the closer that set isClosed returned
-	setter := -1     // client that parked at ops.close.unlocked
+	closerDone := -1           // ran length when the closer that set isClosed returned
+	setter := -1               // client that parked at ops.close.unlocked
 	doneStart := map[int]int{} // Done client -> number of ops accepted when its call started
+	var qmirror []int          // ids in the queue, in order (the harness's own bookkeeping)
+	holding := map[int]int{}   // worker participant at popped / at the gate -> id it holds
 
 	statuses := func() []string {
-		out := make([]string, n+1)
-		for i := 0; i <= n; i++ {
+		out := make([]string, nparts())
+		for i := range out {
 			out[i] = s.Status(i)
 		}
 		return out
@@ -219,6 +366,43 @@ func c05Execute(in c05In) *c05Trace {
 		return c
 	}
 
+	// a worker that has just popped an instrumented op runs into its gate
+	enterOps := func() {
+		for w := n; w < nparts(); w++ {
+			if s.Status(w) != "parked:ops.worker.popped" {
+				continue
+			}
+			if _, seen := holding[w]; seen {
+				continue
+			}
+			id := -1
+			if len(qmirror) > 0 {
+				id, qmirror = qmirror[0], qmirror[1:]
+			}
+			holding[w] = id
+			if _, waiter := tr.waiterOf[id]; waiter {
+				continue // the function Done queued: not instrumented, stays at popped
+			}
+			mu.Lock()
+			before := len(entered)
+			mu.Unlock()
+			s.Step(w)
+			settle()
+			mu.Lock()
+			var e *c05Op
+			if len(entered) == before+1 {
+				e = entered[before]
+			}
+			mu.Unlock()
+			switch st := s.Status(w); {
+			case st != "parked:ops.op.gate" || e == nil:
+				fail(c05Prop, "popped-function-is-not-the-queue-head", fmt.Sprintf("worker %d popped with op %d at the head of the queue and went to %s", w-n, id, st))
+			case e.id != id:
+				fail(c05Prop, "op-started-out-of-queue-order", fmt.Sprintf("op %d entered, the head of the queue was %d", e.id, id))
+			}
+		}
+	}
+
 	doStep := func(t int) {
 		q0, _, closed0 := ops.Snapshot()
 		// a Done call starts with this step: everything accepted so far was
@@ -231,26 +415,28 @@ func c05Execute(in c05In) *c05Trace {
 		pending = nil
 		mu.Unlock()
 		var res int
-		switch st := robustStep(s, t); {
-		case st == "disabled":
-			res = 0
-		case st == "blocked":
-			res = 2
-			released[t] = true
-		default:
-			res = 1
-		}
-		// the worker participant follows the implementation's busyCh
-		wst := waitStatus(s, wtid, func(st string) bool {
-			_, busy, _ := ops.Snapshot()
-			if busy {
-				return strings.HasPrefix(st, "parked:")
+		switch {
+		case t >= nparts():
+			res = 0 // no such goroutine (yet)
+		case t >= n:
+			delete(holding, t)
+			if s.Step(t) == "disabled" {
+				res = 0
+			} else {
+				res = 1
 			}
-			return st == "finished"
-		})
-		if strings.HasPrefix(wst, "stuck:") {
-			fail("worker-state-inconsistent-with-busy-channel", wst)
+		default:
+			switch st := robustStep(s, t); st {
+			case "disabled":
+				res = 0
+			case "blocked":
+				res = 2
+				released[t] = true
+			default:
+				res = 1
+			}
 		}
+		settle()
 		// released clients whose wait is over finish by themselves
 		for c := range released {
 			if !stillBlocked(s, c) {
@@ -259,19 +445,17 @@ func c05Execute(in c05In) *c05Trace {
 		}
 		q1, busy, closed := ops.Snapshot()
 		if ops.IsEmpty() != (q1 == 0) {
-			fail("isempty-disagrees-with-queue", fmt.Sprintf("IsEmpty()=%v with %d queued", ops.IsEmpty(), q1))
+			fail(c05Soft, "isempty-disagrees-with-queue", fmt.Sprintf("IsEmpty()=%v with %d queued", ops.IsEmpty(), q1))
 		}
 		mu.Lock()
 		op := pending
-		ranNow := append([]int(nil), ranLog...)
-		mr := maxRunning
-		tw := twoWorkers
 		mu.Unlock()
 		// acceptance: the queue grew during this step
 		if q1 == q0+1 {
 			id := nextID
 			nextID++
 			tr.accepted = append(tr.accepted, id)
+			qmirror = append(qmirror, id)
 			if op != nil {
 				mu.Lock()
 				op.id = id
@@ -280,7 +464,7 @@ func c05Execute(in c05In) *c05Trace {
 				tr.waiterOf[id] = t
 			}
 			if closedSeen {
-				fail("accepted-after-close", fmt.Sprintf("op %d accepted although isClosed was set", id))
+				fail(c05Prop, "accepted-after-close", fmt.Sprintf("op %d accepted although isClosed was set", id))
 			}
 		}
 		if closed {
@@ -289,29 +473,51 @@ func c05Execute(in c05In) *c05Trace {
 		if startMark >= 0 {
 			doneStart[t] = startMark
 		}
+		enterOps()
+		mu.Lock()
+		ranNow := append([]int(nil), ranLog...)
+		mr := maxRunning
+		mu.Unlock()
 		sts := statuses()
+		var wlive []int
+		for w := n; w < len(sts); w++ {
+			if sts[w] != "finished" {
+				wlive = append(wlive, 8*(w-n)+c05StatusCode(sts[w], true))
+			}
+		}
+		if len(wlive) > tr.maxLive {
+			tr.maxLive = len(wlive)
+		}
 		if t < n && in.Progs[t][0] == 2 && sts[t] == "parked:ops.close.unlocked" {
 			setter = t
 		}
 		if setter >= 0 && sts[setter] == "finished" && closerDone < 0 {
 			closerDone = len(ranNow)
-			if busy {
-				fail("close-returned-while-worker-alive", "GracefulClose returned and a start() goroutine still exists")
+			if len(wlive) > 0 {
+				fail(c05Mech, "close-returned-while-worker-alive", "GracefulClose returned and a start() goroutine still exists")
 			}
 		}
 		if closerDone >= 0 && len(ranNow) > closerDone {
-			fail("op-ran-after-graceful-close-returned", fmt.Sprintf("ran %v, %d had run when GracefulClose returned", ranNow, closerDone))
+			fail(c05Prop, "op-ran-after-graceful-close-returned", fmt.Sprintf("ran %v, %d had run when GracefulClose returned", ranNow, closerDone))
 		}
 		if mr > 1 {
-			fail("two-ops-running-at-once", "an op started while another was still running")
+			fail(c05Prop, "two-ops-running-at-once", fmt.Sprintf("%d queued functions were entered and not finished at the same time (start() goroutines alive: %d)", mr, len(wlive)))
 		}
-		if tw {
-			fail("two-workers-alive", "two start() goroutines were between their first and last yield point at once")
+		if len(wlive) > 1 {
+			fail(c05Mech, "worker-started-while-one-alive", fmt.Sprintf("%d start() goroutines exist at once (8*number+state: %v)", len(wlive), wlive))
+		}
+		if busy != (len(wlive) > 0) {
+			fail(c05Soft, "worker-state-inconsistent-with-busy-channel", fmt.Sprintf("busyCh non-nil = %v with %d start() goroutine(s) alive", busy, len(wlive)))
+		}
+		for c := 0; c < n; c++ {
+			if sts[c] == "parked:ops.op.gate" {
+				fail(c05Prop, "op-ran-on-the-enqueuing-goroutine", fmt.Sprintf("client %d is inside a queued function", c))
+			}
 		}
 		// in order, once, without gaps (waiter ops are not instrumented)
 		for k := 1; k < len(ranNow); k++ {
 			if ranNow[k] <= ranNow[k-1] {
-				fail("op-ran-out-of-order-or-twice", fmt.Sprintf("ran %v", ranNow))
+				fail(c05Prop, "op-ran-out-of-order-or-twice", fmt.Sprintf("ran %v", ranNow))
 			}
 		}
 		if len(ranNow) > 0 {
@@ -323,12 +529,13 @@ func c05Execute(in c05In) *c05Trace {
 				}
 			}
 			if inst != len(ranNow) {
-				fail("op-skipped", fmt.Sprintf("ran %v but ops up to %d were accepted earlier", ranNow, last))
+				fail(c05Prop, "op-skipped", fmt.Sprintf("ran %v but ops up to %d were accepted earlier", ranNow, last))
 			}
 		}
 		// Done returned: everything accepted before the call started has run
-		// (the mark is taken when the call starts, not from the waiter op Done
-		// happens to push, so a Done that waits by other means is checked too)
+		// to its end (the mark is taken when the call starts, not from the
+		// waiter op Done happens to push, so a Done that waits by other means
+		// is checked too; an op still parked at its gate has not run)
 		for c, mark := range doneStart {
 			if sts[c] == "finished" {
 				for id := 0; id < mark; id++ {
@@ -340,33 +547,52 @@ func c05Execute(in c05In) *c05Trace {
 						found = found || r == id
 					}
 					if !found {
-						fail("done-returned-before-earlier-op-ran", fmt.Sprintf("Done of client %d (started with %d ops accepted) returned, op %d has not run", c, mark, id))
+						fail(c05Prop, "done-returned-before-earlier-op-ran", fmt.Sprintf("Done of client %d (started with %d ops accepted) returned, op %d has not finished", c, mark, id))
 					}
 				}
 				delete(doneStart, c)
 			}
 		}
-		codes := make([]int, n+1)
-		for i, st := range sts {
-			codes[i] = c05StatusCode(st, i == n)
-			if i < n && released[i] {
+		codes := make([]int, n)
+		for i := 0; i < n; i++ {
+			codes[i] = c05StatusCode(sts[i], false)
+			if released[i] {
 				codes[i] = 3
 			}
 		}
 		tr.executed = append(tr.executed, t)
-		tr.steps = append(tr.steps, c05Step{res: res, status: codes, qlen: q1, busy: busy, closed: closed,
-			flag: ops.Flag.Load(), ran: ranNow})
+		tr.steps = append(tr.steps, c05Step{res: res, status: codes, wlive: wlive, nworkers: len(sts) - n,
+			qlen: q1, busy: busy, closed: closed, flag: ops.Flag.Load(), ran: ranNow})
+	}
+
+	// thread number of a schedule entry
+	resolve := func(t int) int {
+		if in.Abs || t < n {
+			return t
+		}
+		sts := statuses()
+		k := t - n
+		for w := n; w < len(sts); w++ {
+			if sts[w] != "finished" {
+				if k == 0 {
+					return w
+				}
+				k--
+			}
+		}
+		return len(sts) + k // a goroutine that does not exist
 	}
 
 	for _, t := range in.Sched {
-		if t < 0 || t > n {
+		if t < 0 || t > n+64 || prio >= c05Prop {
 			continue
 		}
+		t = resolve(t)
 		tr.cands = append(tr.cands, candidates(statuses()))
 		doStep(t)
 	}
 	if in.Drain {
-		for guard := 0; guard < 10000; guard++ {
+		for guard := 0; guard < 10000 && prio < c05Prop; guard++ {
 			c := candidates(statuses())
 			if len(c) == 0 {
 				break
@@ -377,7 +603,7 @@ func c05Execute(in c05In) *c05Trace {
 	}
 	final := statuses()
 	tr.quiescent = len(candidates(final)) == 0
-	if tr.quiescent {
+	if tr.quiescent && prio < c05Prop {
 		// exactly once: every accepted op has run; every Done has returned
 		q, busy, closed := ops.Snapshot()
 		mu.Lock()
@@ -397,15 +623,15 @@ func c05Execute(in c05In) *c05Trace {
 		}
 		if inst != len(ranNow) || blockedWaiter || q != 0 {
 			if closed && !busy && q > 0 {
-				fail("accepted-op-left-queued-when-worker-exits-after-close",
+				fail(c05Prop, "accepted-op-left-queued-when-worker-exits-after-close",
 					fmt.Sprintf("quiescent with %d op(s) still queued, accepted %v, ran %v, Done blocked=%v", q, tr.accepted, ranNow, blockedWaiter))
 			} else {
-				fail("accepted-op-never-ran", fmt.Sprintf("quiescent: accepted %v ran %v queue %d busy %v closed %v", tr.accepted, ranNow, q, busy, closed))
+				fail(c05Prop, "accepted-op-never-ran", fmt.Sprintf("quiescent: accepted %v ran %v queue %d busy %v closed %v", tr.accepted, ranNow, q, busy, closed))
 			}
 		}
 		for i := 0; i < n; i++ {
 			if in.Progs[i][0] == 2 && final[i] != "finished" {
-				fail("graceful-close-never-returns", "quiescent with GracefulClose still waiting")
+				fail(c05Prop, "graceful-close-never-returns", "quiescent with GracefulClose still waiting")
 			}
 		}
 	}
@@ -421,7 +647,7 @@ func c05Execute(in c05In) *c05Trace {
 		if tr.quiescent {
 			class = "quiescent"
 		}
-		tr.verdict = Pass(fmt.Sprintf("%s/threads%d", class, n), switches >= 2)
+		tr.verdict = Pass(fmt.Sprintf("%s/threads%d/maxlive%d", class, n, tr.maxLive), switches >= 2)
 	}
 	return tr
 }
@@ -441,7 +667,8 @@ func (tr *c05Trace) obs() V {
 			return 0
 		}
 		qword := st.qlen*8 + b(st.busy)*4 + b(st.closed)*2 + b(st.flag)
-		steps[i] = VZ(st.res + 4*(len(st.ran)+64*(qword+512*pack)))
+		steps[i] = VL{VZ(st.res + 4*(len(st.ran)+64*(qword+512*pack))),
+			VZ(len(st.wlive) + 16*st.nworkers), VInts(st.wlive)}
 		// the harness's log only ever grows by appending: the final list and
 		// the lengths give every intermediate list
 		ran = st.ran
@@ -460,7 +687,7 @@ func c05Run(in c05In) (V, Verdict) {
 		tr = c05Execute(in)
 	}
 	v := tr.verdict
-	full := c05In{Cb: in.Cb, Progs: in.Progs, Sched: tr.executed}
+	full := c05In{Cb: in.Cb, Progs: in.Progs, Sched: tr.executed, Abs: true}
 	raw, _ := json.Marshal(full)
 	v.Key = string(raw)
 	c05Cache.Store(c05Key(in), tr.executed)
@@ -473,14 +700,12 @@ func c05Key(in c05In) string {
 }
 
 func c05Coq(in c05In) string {
-	sched := in.Sched
-	if in.Drain {
-		ex, ok := c05Cache.Load(c05Key(in))
-		if !ok {
-			return ""
-		}
-		sched = ex.([]int)
+	// the model replays the executed schedule (absolute goroutine numbers)
+	ex, ok := c05Cache.Load(c05Key(in))
+	if !ok {
+		return ""
 	}
+	sched := ex.([]int)
 	progs := make([]string, len(in.Progs))
 	for i, p := range in.Progs {
 		progs[i] = fmt.Sprintf("(%d, %d)", p[0], p[1])
@@ -498,12 +723,15 @@ func c05Enumerate(cb int, progs [][2]int, limit int) []c05In {
 	var out []c05In
 	var rec func(prefix []int)
 	rec = func(prefix []int) {
-		if limit > 0 && len(out) >= limit {
-			return
+		if limit > 0 && len(out) >= limit || c05EnumFailed >= 60 {
+			return // (a broken queue: the first failing schedules are enough)
 		}
-		tr := c05Execute(c05In{Cb: cb, Progs: progs, Sched: prefix, Drain: true})
+		tr := c05Execute(c05In{Cb: cb, Progs: progs, Sched: prefix, Drain: true, Abs: true})
 		ex := append([]int(nil), tr.executed...)
-		leaf := c05In{Cb: cb, Progs: progs, Sched: ex}
+		leaf := c05In{Cb: cb, Progs: progs, Sched: ex, Abs: true}
+		if !tr.verdict.OK {
+			c05EnumFailed++
+		}
 		out = append(out, leaf)
 		c05Done.Store(c05Key(leaf), tr)
 		for d := len(ex) - 1; d >= len(prefix); d-- {
@@ -517,6 +745,8 @@ func c05Enumerate(cb int, progs [][2]int, limit int) []c05In {
 	rec(nil)
 	return out
 }
+
+var c05EnumFailed int
 
 type c05Config struct {
 	cb    int
@@ -545,6 +775,15 @@ func init() {
 			{Cb: 0, Progs: [][2]int{{0, 0}, {3, 0}, {2, 0}}, Sched: []int{1, 0, 3, 3, 3, 3, 3, 2, 3, 2}, Drain: true},
 			// witness continued to the end
 			{Cb: -1, Progs: [][2]int{{0, 0}, {1, 0}, {2, 0}}, Sched: []int{0, 3, 3, 3, 3, 1, 2, 3, 2, 1}, Drain: true},
+			// an Enqueue between the worker's last (empty) pop and its deferred
+			// exit, then the callback's Enqueue, then the goroutines that exist
+			// (3 = the first alive, 4 = the second alive, if any) one step each:
+			// with a queue that is marked idle too early two functions are inside
+			// their gates at once
+			{Cb: 0, Progs: [][2]int{{0, 0}, {3, 0}, {0, 0}}, Sched: []int{1, 0, 3, 3, 3, 2, 3, 3, 3, 3, 4, 4, 3}, Drain: true},
+			// the same window, a Done behind the second op: a second goroutine
+			// would run Done's function while the op before it is still running
+			{Cb: -1, Progs: [][2]int{{0, 0}, {0, 0}, {1, 0}}, Sched: []int{0, 3, 3, 3, 1, 4, 2, 3, 3, 4, 4, 2}, Drain: true},
 		}
 	}
 	Register(Spec[c05In]{
@@ -562,6 +801,10 @@ func init() {
 				// an op enqueued by the negotiation-needed callback in the worker's
 				// tail (as PeerConnection.onNegotiationNeeded does) while a Done waits
 				{0, [][2]int{{0, 0}, {3, 0}, {1, 0}}},
+				// two Enqueue callers around a callback that enqueues: three
+				// harness ops, the smallest configuration in which a queue with
+				// two goroutines would have two ops running at once
+				{0, [][2]int{{0, 0}, {3, 0}, {0, 0}}},
 			}
 			if argTier() == "thorough" {
 				cfgs = append(cfgs,
@@ -603,7 +846,9 @@ func init() {
 			m := r.Range(0, 40)
 			for k := 0; k < m; k++ {
 				if r.Chance(2, 5) {
-					in.Sched = append(in.Sched, n) // the worker
+					in.Sched = append(in.Sched, n) // the first start() goroutine alive
+				} else if r.Chance(1, 12) {
+					in.Sched = append(in.Sched, n+1) // the second one alive, if there is one
 				} else {
 					in.Sched = append(in.Sched, r.Intn(n+1))
 				}
